@@ -150,6 +150,9 @@ public:
 
     const schema_t& schema() const { return m_schema; }
 
+    // multiply the stored target values (used to probe the numerical stability of a fit; call before load())
+    void target_scale(double scale) { m_target_scale = scale; }
+
     // reference copy: per stored feature (schema order), per sample: vector of values; empty = missing
     const std::vector<std::vector<std::vector<double>>>& stored() const { return m_stored; }
 
@@ -215,6 +218,13 @@ private:
                 if (!given)
                 {
                     continue;
+                }
+                if (f == m_schema.target && m_target_scale != 1.0 && feat.type() != feature_type::sclass && feat.type() != feature_type::mclass)
+                {
+                    for (auto& v : vals)
+                    {
+                        v *= m_target_scale;
+                    }
                 }
                 if (feat.type() == feature_type::sclass)
                 {
@@ -284,6 +294,7 @@ private:
     double                                           m_missing;
     bool                                             m_target_given;
     int                                              m_value_mode;
+    double                                           m_target_scale{1.0};
     std::vector<std::vector<std::vector<double>>>    m_stored;
 };
 
